@@ -115,6 +115,43 @@ func main() {
 				map[string]interface{}{"route_send_payload_len": l, "returned_seq": sq, "port": port}, "wire-echo", true)
 		}
 		out.Case("NSeqs ["+strings.Join(seqs, "; ")+"]", map[string]interface{}{"consecutive_sends": len(seqs)}, "sequence", true)
+		// kernel datagrams that exactly fill the read buffer (and ones a few bytes shorter): reply = 16 + 4 + 16 + payload, 4-aligned
+		exact := 0
+		for _, B := range []int{64, 128, 1000, 4096, 8986} {
+			bc, err := libaudit.NewNetlinkClient(syscall.NETLINK_ROUTE, 0, make([]byte, B), nil)
+			if err != nil {
+				continue
+			}
+			bport := uint32(0)
+			if sa, err := syscall.Getsockname(fdOf(bc)); err == nil {
+				bport = sa.(*syscall.SockaddrNetlink).Pid
+			}
+			for _, l := range []int{(B - 36) &^ 3, (B-36)&^3 - 1, (B-36)&^3 - 4, (B-36)&^3 - 9} {
+				if l < 0 {
+					continue
+				}
+				ty := uint16(16 + 4*(200+r.Intn(50)) + 2)
+				p := rnd(r, l)
+				sq, err := bc.Send(syscall.NetlinkMessage{Header: syscall.NlMsghdr{Type: ty, Flags: syscall.NLM_F_REQUEST}, Data: p})
+				if err != nil {
+					continue
+				}
+				msgs, err := bc.Receive(false, syscall.ParseNetlinkMessage)
+				if err != nil || len(msgs) == 0 || msgs[0].Header.Type != syscall.NLMSG_ERROR || len(msgs[0].Data) < 20 {
+					out.Case(fmt.Sprintf("NKernel %v %d", err != nil, 0), map[string]interface{}{"route_reply_error": fmt.Sprint(err), "read_buffer": B, "request_payload": l}, "kernel-datagram-filling-buffer", true)
+					continue
+				}
+				out.Case(fmt.Sprintf("NKernel false %d", msgs[0].Header.Type), map[string]interface{}{"kernel_reply_type": msgs[0].Header.Type, "read_buffer": B, "reply_len": msgs[0].Header.Len}, "kernel-datagram-filling-buffer", true)
+				echo := msgs[0].Data[4:]
+				if len(echo) >= 16+l {
+					exact++
+					out.Case(fmt.Sprintf("NEcho %d %d %d %d %s %d %s", bport, ty, syscall.NLM_F_REQUEST, 0, sx.Hx(p), sq, sx.Hx(echo[:16+len(p)])),
+						map[string]interface{}{"route_send_payload_len": l, "returned_seq": sq, "port": bport, "read_buffer": B}, "wire-echo-filling-buffer", true)
+				}
+			}
+			bc.Close()
+		}
+		meta["buffer_filling_datagrams"] = fmt.Sprintf("%d kernel replies of exactly / nearly the read buffer's size quoted back in full", exact)
 		meta["netlink_route"] = fmt.Sprintf("available, %d requests quoted back by the kernel", okEcho)
 		// concurrent senders
 		const G, M = 8, 200
